@@ -275,7 +275,7 @@ fn run_property(cfg: &Cfg) -> Result<Outcome, String> {
         "C12" => run_boards(
             cfg,
             BoardRun {
-                mix: Mix { mating: 30, fewmovers: 25, special: 20, walk_pct: 50, clock_edge_pct: 40, ..Mix::GENERAL },
+                mix: Mix { mating: 30, fewmovers: 25, special: 20, special2: 20, walk_pct: 50, clock_edge_pct: 40, ..Mix::GENERAL },
                 quick: 3_000_000,
                 thorough: 80_000_000,
                 small: true,
